@@ -97,7 +97,7 @@ PROPS = {
     },
     "C16": {
         "level": "exploration",
-        "level_text": "Generated histories over 2-4 logs on both storages; after every request the registered mux handlers and the bundled HTTP client (in-memory transport) are queried for every known ID, unknown and odd IDs and the log list, and compared byte for byte with the witness's state and the set of logs with an accepted update.",
+        "level_text": "Generated histories over 2-4 logs on both storages; after every request the registered mux handlers and the bundled HTTP client (in-memory transport) are queried for every known ID, unknown and odd IDs and the log list, and compared byte for byte with the witness's state and the set of logs with an accepted update. On the SQL store the list and a held checkpoint are read again with a driver-level storage error injected under the read: whatever is answered 200 must still be exactly the truth, and a held log is never answered 'not found'.",
         "level_note": "HTTP layer exercised through gorilla/mux + net/http/httptest, not over sockets (C14 covers the socket path).",
         "technique": "property-based testing: generated histories with a read-after-every-step oracle (rapid)",
         "assumptions": HIST_ASSUME,
